@@ -31,7 +31,8 @@ pub const FAMILIES: &[&str] = &[
     // typer: misc declarations
     "attr_fn", "attr_stmt", "attr_global", "register_type", "modifier_conflict", "modifier_position", "illegal_names",
     "template_args", "assert_type", "assert_eval", "array_dims", "init_wrong", "return_wrong", "binop_wrong", "cast_wrong",
-    "lvalue", "incomplete", "struct_default", "static_sampler",
+    "lvalue", "incomplete", "struct_default", "static_sampler", "member_misc", "call_misc", "annotation_misc", "assert_misc",
+    "declarator_misc",
     // typer: pipelines
     "pipe_dup", "pipe_prop_dup", "pipe_prop_unknown", "pipe_entry_unknown", "pipe_no_entry", "pipe_stage_combo",
     "pipe_graphics_only", "pipe_arg_unknown", "pipe_blend",
@@ -45,7 +46,7 @@ pub const FAMILIES: &[&str] = &[
     "pp_macro_args", "pp_concat", "pp_pragma", "pp_include_depth", "pp_define_bad", "lex_bad_char", "lex_unterminated",
     "pp_error_in_include",
     // parser
-    "parse_many", "parse_register", "parse_eof", "parse_in_namespace",
+    "parse_many", "parse_register", "parse_eof", "parse_in_namespace", "parse_misc", "lex_misc", "pp_misc",
 ];
 
 const POOL: &[&str] = &[
@@ -728,6 +729,78 @@ pub fn diag_program(family: &str, rng: &mut Rng) -> Option<DiagProg> {
             }
             s.push_str(COMPUTE_TAIL);
         }
+        "member_misc" => {
+            let ns = names(rng, k);
+            s.push_str("struct A\n{\n    int x;\n    void m()\n    {\n    }\n};\nstruct B\n{\n    int y;\n};\nnamespace N\n{\n    static int g = 0;\n}\nBuffer<float> g_buf;\nTexture2D g_tex;\n");
+            s.push_str("void body()\n{\n    A a;\n    B b;\n    float f = 1;\n    float arr[2];\n    float4 v = float4(1, 2, 3, 4);\n");
+            let forms = [
+                "a.B::y", "a.N::g", "a.f", "g_buf.Missing(0)", "g_tex.missing", "f[0]", "arr[1.5]", "f.x.y.z.w.q", "a[0]", "g_buf.Load", "a.m",
+                "b.x", "v.x.foo", "arr.x", "g_tex[0.5]", "a.A::m", "f.missing", "N::g.x",
+            ];
+            for n in &ns {
+                s.push_str(&format!("    float {} = {};\n", n, rng.pick(&forms)));
+            }
+            s.push_str("}\n");
+            s.push_str(COMPUTE_TAIL);
+        }
+        "call_misc" => {
+            let ns = names(rng, k);
+            s.push_str("void f()\n{\n}\nvoid g(int p)\n{\n}\nstruct S\n{\n    int m;\n};\nstatic int v = 0;\n");
+            s.push_str("void body()\n{\n    int x = 1;\n    S s;\n");
+            let forms = [
+                "    x(1);\n", "    g(f);\n", "    int {} = f;\n", "    f;\n", "    s(2);\n", "    v(3);\n", "    g(g);\n", "    int {} = (int)f;\n",
+                "    S {} = (S)f;\n", "    int {} = f + 1;\n", "    int {} = S;\n", "    int {} = g(S);\n", "    v {};\n", "    x {};\n", "    int<2> {};\n", "    S<int> {};\n",
+                "    float {} = { 1, 2 };\n", "    int {} = { };\n", "    SamplerState {} = StaticSampler\n    {\n    };\n",
+            ];
+            for n in &ns {
+                s.push_str(&rng.pick(&forms).replace("{}", n));
+            }
+            s.push_str("}\n");
+            s.push_str(COMPUTE_TAIL);
+        }
+        "annotation_misc" => {
+            let ns = names(rng, k);
+            let forms = [
+                "struct S_{}\n{\n    int m : register(t0);\n};\n", "void f_{}(int p : register(t0))\n{\n}\n", "void f_{}()\n{\n    int local : SEMANTIC;\n}\n",
+                "void f_{}()\n{\n    int local : register(t0);\n}\n", "typedef int T_{} : SEMANTIC;\n", "[[rssl::bind_group]]\nBuffer<float> g_{};\n",
+                "[[rssl::bind_group(1, 2)]]\nBuffer<float> g_{};\n", "[[rssl::bindless(1)]]\nBuffer<float> g_{}[];\n", "[[rssl::bind_group(1.5)]]\nBuffer<float> g_{};\n",
+                "[[rssl::unknown_{}]]\nBuffer<float> g_{};\n", "[[other::bind_group(1)]]\nBuffer<float> g_{};\n",
+                "cbuffer C_{}\n{\n    float m_{} : SEMANTIC;\n}\n", "static int g_{} : SEMANTIC;\n",
+                "[outputtopology(\"square\")]\n[numthreads(1, 1, 1)]\nvoid ms_{}()\n{\n}\n", "[outputtopology(3)]\n[numthreads(1, 1, 1)]\nvoid ms_{}()\n{\n}\n",
+                "[WaveSize(3, 4, 5, 6)]\nvoid w_{}()\n{\n}\n",
+            ];
+            for n in &ns {
+                s.push_str(&rng.pick(&forms).replace("{}", n));
+            }
+            s.push_str(COMPUTE_TAIL);
+        }
+        "assert_misc" => {
+            s.push_str("void body()\n{\n");
+            let forms = [
+                "    assert_type<int, int>(1);\n", "    assert_type(1);\n", "    assert_type<int>();\n", "    assert_type<1>(1);\n", "    assert_eval<int>(1);\n",
+                "    assert_eval(1, 2, 3);\n", "    assert_eval<int>((int)1 + (int)1, (int)3);\n", "    assert_eval(2u, 3u);\n", "    assert_eval<float>(1.0f, 2.0f);\n",
+                "    assert_eval<int, int>(1, 1);\n", "    assert_eval(true, false);\n",
+            ];
+            for _ in 0..k {
+                s.push_str(*rng.pick(&forms));
+            }
+            s.push_str("}\n");
+            s.push_str(COMPUTE_TAIL);
+        }
+        "declarator_misc" => {
+            let ns = names(rng, k);
+            s.push_str("template<typename T>\nT tf(T p)\n{\n    return p;\n}\nstruct S\n{\n    int m;\n};\n");
+            s.push_str("void body()\n{\n");
+            let forms = [
+                "    int {} = (int[2])1;\n", "    int {} = tf<int[2]>(1);\n", "    uint {} = sizeof(int[2]);\n", "    int {} = (int*)1;\n", "    int {} = tf<int&>(1);\n",
+                "    int* {};\n", "    int& {} = 1;\n", "    int {} = (int&)1;\n", "    uint {} = sizeof(S*);\n", "    S {} = S { 1 };\n", "    int {} = int { 1 };\n",
+            ];
+            for n in &ns {
+                s.push_str(&rng.pick(&forms).replace("{}", n));
+            }
+            s.push_str("}\n");
+            s.push_str(COMPUTE_TAIL);
+        }
         // ---------------------------------------------------------------- pipelines
         "pipe_dup" => {
             let ns = names(rng, k);
@@ -1147,6 +1220,48 @@ pub fn diag_program(family: &str, rng: &mut Rng) -> Option<DiagProg> {
             let ns = names(rng, k);
             for n in &ns {
                 s.push_str(&format!("namespace N_{}\n{{\n    static int v = ;\n}}\n", n));
+            }
+            s.push_str(COMPUTE_TAIL);
+        }
+        "parse_misc" => {
+            let ns = names(rng, k);
+            let forms = [
+                "static int v_{} = 0; }\n", "[attr_{}]\nstruct S_{}\n{\n    int m;\n};\n", "static NotAType<int v_{};\n", "void f_{}()\n{\n    NotAType * p;\n    (NotAType) 1;\n}\n",
+                "Buffer<float> g_{} : register(q0);\n", "Buffer<float> g_{} : register(0);\n", "[numthreads(1, 1, 1)]\nstatic int v_{} = 0;\n", "[unroll]\nvoid f_{}()\n{\n}\n",
+                "void f_{}()\n{\n    [numthreads(1, 1, 1)]\n    int x = 0;\n}\n", "typedef;\n", "static int v_{} = sizeof();\n", "template<>\nvoid f_{}()\n{\n}\n",
+            ];
+            for n in &ns {
+                s.push_str(&rng.pick(&forms).replace("{}", n));
+            }
+            s.push_str(COMPUTE_TAIL);
+        }
+        "lex_misc" => {
+            let ns = names(rng, k);
+            let forms = [
+                "static float v_{} = 1.0q;\n", "static float v_{} = 1.5x;\n", "static int v_{} = 99999999999999999999999999999999999999999;\n",
+                "static int v_{} = 0xffffffffffffffffffffffffffffffffff;\n", "static int v_{} = \"wraps\n\";\n", "static int v_{} = \"bad \\q escape\";\n",
+                "#include \"wraps_{}\n", "#include <wraps_{}\n", "#include \"bad\\0{}.h\"\n", "static int v_{} = 1e+;\n", "static int v_{} = 0b12;\n", "static int v_{} = 08;\n",
+                "static float v_{} = 1.0ff;\n", "static uint v_{} = 1uu;\n", "static int v_{} = 1lu;\n",
+            ];
+            for n in &ns {
+                s.push_str(&rng.pick(&forms).replace("{}", n));
+            }
+            s.push_str(COMPUTE_TAIL);
+        }
+        "pp_misc" => {
+            let ns = names(rng, k);
+            for n in &ns {
+                s.push_str(&format!("#define M_{}(a) a\n", n));
+            }
+            let forms = [
+                "static int v_{} = M_{};\n", "static int v_{} = M_{} + 1;\n", "#if M_{}\n#endif\n", "#pragma once\n#pragma once junk_{}\n", "#line 5 \"x_{}\"\n",
+                "#error stop_{}\n", "#warning careful_{}\n", "#if defined\n#endif\n", "#if defined(\n#endif\n", "#ifdef M_{} extra\n#endif\n", "#undef M_{} extra\n",
+                "#define M_{}\n#define M_{} 1\n", "#include M_{}\n", "#elif 1\n", "#if 1 / 0\n#endif\n", "#if 1 % 0\n#endif\n",
+            ];
+            let mut uses: Vec<String> = ns.iter().map(|n| rng.pick(&forms).replace("{}", n)).collect();
+            shuffle(rng, &mut uses);
+            for u in &uses {
+                s.push_str(u);
             }
             s.push_str(COMPUTE_TAIL);
         }
